@@ -357,6 +357,18 @@ impl BundleConfiguration {
     }
 }
 
+#[cfg(feature = "verif")]
+impl Configuration {
+    pub(crate) fn verif_set_filters(
+        &mut self,
+        apply_to_files: Vec<FilterPattern>,
+        skip_files: Vec<FilterPattern>,
+    ) {
+        self.apply_to_files = apply_to_files;
+        self.skip_files = skip_files;
+    }
+}
+
 #[cfg(test)]
 mod test {
     use super::*;
